@@ -50,6 +50,13 @@ impl Flags {
     pub fn remove(&mut self, o: Flags)
         ensures final(self).bits == old(self).bits & !o.bits, forall|i: u8| 0 <= i < 8 ==> #[trigger] final(self).has(i) == (old(self).has(i) && !o.has(i))
     { proof { lemma_andnot_bits(self.bits, o.bits); } self.bits = self.bits & !o.bits; }
+    // the by-value forms of bitflags 2.x: union = |, difference = & !
+    pub fn union(self, o: Flags) -> (r: Flags)
+        ensures r.bits == self.bits | o.bits, forall|i: u8| 0 <= i < 8 ==> #[trigger] r.has(i) == (self.has(i) || o.has(i))
+    { proof { lemma_or_bits(self.bits, o.bits); } Flags { bits: self.bits | o.bits } }
+    pub fn difference(self, o: Flags) -> (r: Flags)
+        ensures r.bits == self.bits & !o.bits, forall|i: u8| 0 <= i < 8 ==> #[trigger] r.has(i) == (self.has(i) && !o.has(i))
+    { proof { lemma_andnot_bits(self.bits, o.bits); } Flags { bits: self.bits & !o.bits } }
     pub fn set(&mut self, o: Flags, value: bool)
         ensures final(self).bits == (if value { old(self).bits | o.bits } else { old(self).bits & !o.bits }),
                 forall|i: u8| 0 <= i < 8 ==> #[trigger] final(self).has(i) == (if o.has(i) { value } else { old(self).has(i) }),
